@@ -23,7 +23,9 @@
 //!     TCP against a harness listener: the name it verifies / sends as SNI is the documented
 //!     choice `--tls-server-name` > `--hostname` > URL host;
 //!  5. `signal-reload` – the real `server::server_main` on loopback TCP; histories of rewriting its live
-//!     certificate/key files (well-formed or not) and raising SIGUSR1, watched by a harness TLS client;
+//!     certificate/key files (well-formed or not) and raising SIGUSR1, watched by a harness TLS client; sub-pass
+//!     `symlink`: the server's arguments come from the real command-line parser, the configured paths go through
+//!     symbolic links and the identity (with its client CA) is rotated by re-pointing the links atomically;
 //!  6. `returning-client` – reload histories seen by ONE client that keeps its TLS session state (one reused
 //!     `rustls::ClientConfig`), through the library calls (in memory, the server side accepting the way `server_main`
 //!     does) and through SIGUSR1 on a running `server_main`: a handshake after a reload must be shown the new
@@ -1505,10 +1507,15 @@ type TcpTls = tokio_rustls::client::TlsStream<tokio::net::TcpStream>;
 /// Harness-owned client for loopback TCP: accepts any server certificate, no session resumption (every
 /// connection is a full handshake, so the certificate seen is the one the server presents NOW).
 fn sig_client_config(pki: &Pki, with_client_cert: bool) -> Arc<ClientConfig> {
+    sig_client_config_for(pki, with_client_cert.then_some("client-ca"))
+}
+
+/// As `sig_client_config`, presenting the client certificate of that kind (`Pki::client`), or none.
+fn sig_client_config_for(pki: &Pki, client_kind: Option<&str>) -> Arc<ClientConfig> {
     let prov = provider();
     let b = ClientConfig::builder_with_provider(prov.clone()).with_safe_default_protocol_versions().expect("protocol versions").dangerous().with_custom_certificate_verifier(Arc::new(AcceptAnyServerCert(prov)));
-    let mut cfg = if with_client_cert {
-        let id = pki.client("client-ca").expect("client identity");
+    let mut cfg = if let Some(kind) = client_kind {
+        let id = pki.client(kind).expect("client identity");
         b.with_client_auth_cert(vec![CertificateDer::from(id.cert_der.clone())], PrivateKeyDer::Pkcs8(PrivatePkcs8KeyDer::from(id.key_der.clone()))).expect("client certificate")
     } else {
         b.with_no_client_auth()
@@ -1558,22 +1565,42 @@ enum SigStart {
 #[allow(clippy::too_many_arguments)]
 async fn start_sig_server(start: &Ident, live_cert: &str, live_key: &str, tls_ca: Option<String>, ccfg: &Arc<ClientConfig>, ctx: &str, sink: &Sink<'_>, replay: &Value) -> SigStart {
     use rusty_penguin_lib::arg::ServerArgs;
-    use std::time::Instant;
-    let mut last_fail = String::new();
-    'attempts: for _ in 0..SIG_START_ATTEMPTS {
+    let prepare = || {
         write(live_cert, &start.cert_pem);
         write(live_key, &start.key_pem);
-        let lease = super::c01_env::lease_port(false);
-        let args: &'static ServerArgs = Box::leak(Box::new(ServerArgs {
+    };
+    let make_args = |port: u16| {
+        Ok(ServerArgs {
             host: vec!["127.0.0.1".to_string()],
-            port: vec![lease.port],
+            port: vec![port],
             not_found_resp: "404".to_string(),
             timeout: penguin_mux::timing::OptionalDuration::from_secs(900),
             tls_cert: Some(live_cert.to_string()),
             tls_key: Some(live_key.to_string()),
             tls_ca: tls_ca.clone(),
             ..Default::default()
-        }));
+        })
+    };
+    start_sig_server_with(&prepare, &make_args, tls_ca.is_some(), "sigreload", ccfg, ctx, sink, replay).await
+}
+
+/// The body of `start_sig_server`: `prepare` puts the live files in place (every attempt), `make_args` makes the server's
+/// arguments for the leased port (Err: the subject refused to make them, a violation `<key_prefix>.server-did-not-start`).
+#[allow(clippy::too_many_arguments)]
+async fn start_sig_server_with(prepare: &dyn Fn(), make_args: &dyn Fn(u16) -> Result<rusty_penguin_lib::arg::ServerArgs, String>, has_ca: bool, key_prefix: &str, ccfg: &Arc<ClientConfig>, ctx: &str, sink: &Sink<'_>, replay: &Value) -> SigStart {
+    use rusty_penguin_lib::arg::ServerArgs;
+    use std::time::Instant;
+    let mut last_fail = String::new();
+    'attempts: for _ in 0..SIG_START_ATTEMPTS {
+        prepare();
+        let lease = super::c01_env::lease_port(false);
+        let args: &'static ServerArgs = match make_args(lease.port) {
+            Ok(a) => Box::leak(Box::new(a)),
+            Err(e) => {
+                sink.viol(format!("{key_prefix}.server-did-not-start"), format!("the server's arguments could not be made: {e}; {ctx}"), replay.clone());
+                return SigStart::Failed;
+            }
+        };
         let task = tokio::spawn(rusty_penguin_lib::server::server_main(args));
         let deadline = Instant::now() + SIG_START_DEADLINE;
         loop {
@@ -1588,12 +1615,12 @@ async fn start_sig_server(start: &Ident, live_cert: &str, live_key: &str, tls_ca
                             last_fail = text; // lost the race for the port: take another one
                             continue 'attempts;
                         }
-                        sink.viol("sigreload.server-did-not-start".into(), format!("server_main with a well-formed certificate/key{} ended at once: {text}; {ctx}", if tls_ca.is_some() { " and client CA" } else { "" }), replay.clone());
+                        sink.viol(format!("{key_prefix}.server-did-not-start"), format!("server_main with a well-formed certificate/key{} ended at once: {text}; {ctx}", if has_ca { " and client CA" } else { "" }), replay.clone());
                         return SigStart::Failed;
                     }
                     Err(je) => {
                         let text = if je.is_panic() { panic_text(&*je.into_panic()) } else { je.to_string() };
-                        sink.viol("sigreload.panic".into(), format!("server_main panicked while starting: {text}; {ctx}"), replay.clone());
+                        sink.viol(format!("{key_prefix}.panic"), format!("server_main panicked while starting: {text}; {ctx}"), replay.clone());
                         return SigStart::Failed;
                     }
                 }
@@ -1799,6 +1826,386 @@ fn exec_sig_case(pki: &Pki, c: &SigCase, sink: &Sink<'_>, counters: &Counters) -
         Ok(res) => Ok(res),
         Err(p) => {
             sink.viol("sigreload.panic".into(), format!("panic in signal-reload history {c:?}: {p}"), c.to_json());
+            Ok(SigResult { facts: vec![("panicked".into(), json!(p))], machinery: None })
+        }
+    }
+}
+
+// ---------------------------------------------------------------------------------------
+// Signal-reload sub-pass "symlink": reload histories through the real command-line parser with symlinked paths
+//
+// The histories above hand `server_main` a hand-filled `ServerArgs` and rewrite the live files in place. A deployed
+// server gets its arguments from the command line (`PenguinCli`, clap) and its identity is usually rotated the way
+// certificate managers do it (certbot `live/ -> archive/`, Kubernetes `..data`, `ln -sfn gen2 live`): the configured
+// paths go through a symbolic link that is atomically re-pointed (new link under a temporary name, renamed over the old
+// one) to the new generation of files, then SIGUSR1. Reference: whatever the configured PATH names at the time of the
+// signal is what later handshakes are governed by: the new generation's server certificate is presented; with a client
+// CA configured a client certified by the new generation's client CA is served and one certified by the replaced
+// generation's client CA is refused.
+//
+// Complete product {the configured file itself is a symlink | a parent directory is a symlink} x {client CA none | set}
+// x {re-point the symlink atomically | rewrite the link's target files in place (control)} x {[B]; [B, A]}, from
+// generation A = (trusted-ca/localhost, client CA "ca-client") with B = (trusted-ca-2/localhost, client CA "ca-other").
+// Every look is a fresh connection with a fresh client configuration; a change is awaited by polling up to
+// `SYM_APPLY_DEADLINE`; "refused" / "served" are judged by what the connection positively showed (an HTTP response, or
+// a failed handshake / closed connection), never by a wait running out. Absolute paths only (the working directory is
+// shared by all threads). Same constraint as above: one SIGUSR1 history at a time, each in a runtime of its own.
+// ---------------------------------------------------------------------------------------
+
+const SYM_LINKS: [&str; 2] = ["file-is-symlink", "parent-dir-is-symlink"];
+const SYM_METHODS: [&str; 2] = ["repoint-symlink", "rewrite-in-place"];
+const SYM_HISTORIES: [&[&str]; 2] = [&["B"], &["B", "A"]];
+/// the files of one generation, as certbot names them
+const SYM_FILES: [&str; 3] = ["cert.pem", "privkey.pem", "ca.pem"];
+/// how long the new generation may take to govern new connections after SIGUSR1
+const SYM_APPLY_DEADLINE: Duration = Duration::from_secs(20);
+
+#[derive(Clone, Debug, PartialEq, Eq, Hash)]
+struct SymCase {
+    alg: String,
+    link: String,
+    client_ca: bool,
+    method: String,
+    history: Vec<String>,
+}
+
+impl SymCase {
+    fn to_json(&self) -> Value {
+        json!({"kind": "signal-reload-symlink", "alg": self.alg, "link": self.link, "client_ca": self.client_ca, "method": self.method, "history": self.history,
+               "generations": "A = server trusted-ca/localhost + client CA ca-client (in force at the start, directory gen1), B = server trusted-ca-2/localhost + client CA ca-other (directory gen2)",
+               "layout": "parent-dir-is-symlink: <root>/live -> gen1, configured <root>/live/{cert.pem,privkey.pem,ca.pem}; file-is-symlink: <root>/live/ is a directory, each <root>/live/<file> -> ../gen1/<file>",
+               "server": "server_main with the ServerArgs that PenguinCli::try_parse_from makes of: penguin server --host 127.0.0.1 --port <p> --404-resp 404 --timeout 900 --tls-cert <abs> --tls-key <abs> [--tls-ca <abs>]",
+               "step": "repoint-symlink: make the link(s) name the step's generation (symlink under a temporary name, rename over the old link); rewrite-in-place: write the step's generation through the configured paths into the files the links name; then raise SIGUSR1 and open new TLS connections"})
+    }
+    fn from_json(v: &Value) -> Self {
+        let s = |k: &str| v[k].as_str().unwrap_or_else(|| panic!("replay: missing {k}")).to_string();
+        let history: Vec<String> = v["history"].as_array().expect("replay: history").iter().map(|s| s.as_str().expect("replay: history entry").to_string()).collect();
+        let c = Self { alg: s("alg"), link: s("link"), client_ca: v["client_ca"].as_bool().unwrap_or(false), method: s("method"), history };
+        assert!(SYM_LINKS.contains(&c.link.as_str()) && SYM_METHODS.contains(&c.method.as_str()) && c.history.iter().all(|h| h == "A" || h == "B"), "replay: unknown symlink case {c:?}");
+        c
+    }
+}
+
+/// The complete product, first key algorithm, in both tiers.
+fn sym_domain(algs: &[&str]) -> Vec<SymCase> {
+    let mut out = Vec::new();
+    for link in SYM_LINKS {
+        for client_ca in [false, true] {
+            for method in SYM_METHODS {
+                for h in SYM_HISTORIES {
+                    out.push(SymCase { alg: algs[0].into(), link: link.into(), client_ca, method: method.into(), history: h.iter().map(|x| (*x).to_string()).collect() });
+                }
+            }
+        }
+    }
+    out
+}
+
+#[derive(Default)]
+struct SymStats {
+    cases: AtomicU64,
+    /// rotations + SIGUSR1 after which the new generation was seen to be in force
+    steps_applied: AtomicU64,
+    steps_applied_by_repoint: AtomicU64,
+    handshakes: AtomicU64,
+    /// a client of the generation in force got an HTTP response (client CA set)
+    current_ca_served: AtomicU64,
+    /// a client of the other generation was positively refused (client CA set)
+    other_ca_refused: AtomicU64,
+    /// the parser handed back the three paths exactly as given
+    paths_kept_by_parser: AtomicU64,
+}
+
+/// One generation of the identity: a server certificate + key and the client CA that goes with it.
+struct SymGen<'a> {
+    name: &'static str,
+    dir: &'static str,
+    id: &'a Ident,
+    ca: &'a Ca,
+    /// `Pki::client` kind of the client certified by `ca`
+    client: &'static str,
+}
+
+impl SymGen<'_> {
+    fn content(&self, file: &str) -> &str {
+        match file {
+            "cert.pem" => &self.id.cert_pem,
+            "privkey.pem" => &self.id.key_pem,
+            "ca.pem" => &self.ca.cert_pem,
+            other => panic!("unknown generation file {other}"),
+        }
+    }
+}
+
+/// Makes `link` name `target` atomically: a new link under a temporary name, renamed over the old one.
+fn sym_repoint(link: &str, target: &str) -> Result<(), String> {
+    let tmp = format!("{link}.new");
+    let _ = std::fs::remove_file(&tmp);
+    std::os::unix::fs::symlink(target, &tmp).map_err(|e| format!("symlink {tmp} -> {target}: {e}"))?;
+    std::fs::rename(&tmp, link).map_err(|e| format!("rename {tmp} over {link}: {e}"))
+}
+
+struct SymLook {
+    /// "A" | "B" | "other" | "none" (no handshake)
+    cert: &'static str,
+    /// Some(true): an HTTP response arrived; Some(false): the handshake failed or the connection was closed / reset
+    /// instead; None: not asked for, or nothing conclusive within the wait
+    served: Option<bool>,
+    detail: String,
+}
+
+/// One fresh connection with a fresh client configuration: the certificate presented and, if `http`, whether the server
+/// goes on to answer a request (TLS 1.3: the client's handshake is over before the server has judged its certificate).
+async fn sym_look(port: u16, pki: &Pki, client_kind: Option<&str>, http: bool, label: &dyn Fn(&[u8]) -> &'static str) -> SymLook {
+    let cfg = sig_client_config_for(pki, client_kind);
+    match tcp_observe(port, &cfg).await {
+        Err(e) if e.starts_with("connect:") || e.starts_with("no handshake within") => SymLook { cert: "none", served: None, detail: e },
+        Err(e) => SymLook { cert: "none", served: http.then_some(false), detail: e },
+        Ok((der, mut s)) => {
+            let cert = label(&der);
+            if !http {
+                return SymLook { cert, served: None, detail: format!("handshake completed, identity {cert}") };
+            }
+            let fut = async {
+                let mut b = [0u8; 5];
+                s.write_all(b"GET / HTTP/1.1\r\nHost: x\r\n\r\n").await.map_err(|e| format!("write: {e}"))?;
+                s.flush().await.map_err(|e| format!("flush: {e}"))?;
+                s.read_exact(&mut b).await.map_err(|e| format!("read: {e}"))?;
+                if &b == b"HTTP/" { Ok(()) } else { Err(format!("the answer starts with {b:?}")) }
+            };
+            match tokio::time::timeout(Duration::from_secs(20), fut).await {
+                Ok(Ok(())) => SymLook { cert, served: Some(true), detail: format!("identity {cert}, HTTP request answered") },
+                Ok(Err(e)) => SymLook { cert, served: Some(false), detail: format!("identity {cert}, client handshake completed, then no HTTP response ({e})") },
+                Err(_) => SymLook { cert, served: None, detail: format!("identity {cert}, client handshake completed, no answer and no close within 20 s") },
+            }
+        }
+    }
+}
+
+async fn run_sym_case(pki: &Pki, c: &SymCase, sink: &Sink<'_>, counters: &Counters, stats: &SymStats) -> Result<SigResult, String> {
+    use rusty_penguin_lib::arg::{Commands, PenguinCli, ServerArgs};
+    use std::time::Instant;
+    catch(async {
+        let mut facts: Facts = Vec::new();
+        let replay = c.to_json();
+        let gen_a = SymGen { name: "A", dir: "gen1", id: pki.server("trusted-ca", "localhost"), ca: &pki.ca_client, client: "client-ca" };
+        let gen_b = SymGen { name: "B", dir: "gen2", id: pki.server("trusted-ca-2", "localhost"), ca: &pki.ca_other, client: "other-ca" };
+        let (a_der, b_der) = (gen_a.id.cert_der.clone(), gen_b.id.cert_der.clone());
+        let label = move |der: &[u8]| if der == a_der.as_slice() { "A" } else if der == b_der.as_slice() { "B" } else { "other" };
+        let gen_of = |name: &str| if name == "A" { &gen_a } else { &gen_b };
+        let by_dir = c.link == "parent-dir-is-symlink";
+        let ca_text = if c.client_ca { "set" } else { "none" };
+
+        // ---- the files: two generation directories and the live paths that go through symbolic link(s)
+        let root = format!("{}/symsig-{}", pki.dir_path, SIG_SEQ.fetch_add(1, Ordering::Relaxed));
+        let live = format!("{root}/live");
+        let set_up = || -> Result<(), String> {
+            for g in [&gen_a, &gen_b] {
+                std::fs::create_dir_all(format!("{root}/{}", g.dir)).map_err(|e| format!("mkdir {root}/{}: {e}", g.dir))?;
+                for f in SYM_FILES {
+                    std::fs::write(format!("{root}/{}/{f}", g.dir), g.content(f)).map_err(|e| format!("write {root}/{}/{f}: {e}", g.dir))?;
+                }
+            }
+            if by_dir {
+                std::os::unix::fs::symlink(gen_a.dir, &live).map_err(|e| format!("symlink {live}: {e}"))?;
+            } else {
+                std::fs::create_dir(&live).map_err(|e| format!("mkdir {live}: {e}"))?;
+                for f in SYM_FILES {
+                    std::os::unix::fs::symlink(format!("../{}/{f}", gen_a.dir), format!("{live}/{f}")).map_err(|e| format!("symlink {live}/{f}: {e}"))?;
+                }
+            }
+            Ok(())
+        };
+        if let Err(e) = set_up() {
+            return SigResult { facts, machinery: Some(format!("signal-reload symlink: cannot lay out the files: {e}")) };
+        }
+        let path_of = |f: &str| format!("{live}/{f}");
+        // the set-up is what it claims to be: every configured path is absolute, goes through a symbolic link, reads generation A
+        for f in SYM_FILES {
+            let p = path_of(f);
+            let through_link = std::fs::canonicalize(&p).is_ok_and(|r| r.to_str() != Some(p.as_str())) && std::fs::symlink_metadata(if by_dir { live.clone() } else { p.clone() }).is_ok_and(|m| m.file_type().is_symlink());
+            if !p.starts_with('/') || !through_link || std::fs::read_to_string(&p).ok().as_deref() != Some(gen_a.content(f)) {
+                return SigResult { facts, machinery: Some(format!("signal-reload symlink: {p} is not an absolute path through a symbolic link to generation A's file")) };
+            }
+        }
+
+        // ---- the server's arguments: the subject's own parser on a command line
+        let parsed: std::cell::RefCell<Option<(Option<String>, Option<String>, Option<String>)>> = std::cell::RefCell::new(None);
+        let make_args = |port: u16| -> Result<ServerArgs, String> {
+            use clap::Parser as _;
+            let mut argv: Vec<String> = ["penguin", "server", "--host", "127.0.0.1", "--port"].iter().map(|x| (*x).to_string()).collect();
+            argv.push(port.to_string());
+            argv.extend(["--404-resp", "404", "--timeout", "900"].iter().map(|x| (*x).to_string()));
+            argv.extend(["--tls-cert".to_string(), path_of("cert.pem"), "--tls-key".to_string(), path_of("privkey.pem")]);
+            if c.client_ca {
+                argv.extend(["--tls-ca".to_string(), path_of("ca.pem")]);
+            }
+            match PenguinCli::try_parse_from(&argv) {
+                Ok(cli) => match cli.subcommand {
+                    Commands::Server(a) => {
+                        *parsed.borrow_mut() = Some((a.tls_cert.clone(), a.tls_key.clone(), a.tls_ca.clone()));
+                        Ok(a)
+                    }
+                    #[allow(unreachable_patterns)]
+                    _ => Err(format!("PenguinCli::try_parse_from({argv:?}) is not a server command")),
+                },
+                Err(e) => Err(format!("PenguinCli::try_parse_from({argv:?}) refused the command line: {e}")),
+            }
+        };
+        let ccfg = sig_client_config_for(pki, c.client_ca.then_some(gen_a.client));
+        let SigServer { task, lease, first_der, mut first } = match start_sig_server_with(&|| {}, &make_args, c.client_ca, "sigreload.symlink", &ccfg, &format!("{c:?}"), sink, &replay).await {
+            SigStart::Up(s) => s,
+            SigStart::Failed => {
+                facts.push(("server.started".into(), json!(false)));
+                return SigResult { facts, machinery: None };
+            }
+            SigStart::Machinery(m) => return SigResult { facts, machinery: Some(m) },
+        };
+        counters.evals.fetch_add(1, Ordering::Relaxed);
+        stats.handshakes.fetch_add(1, Ordering::Relaxed);
+        facts.push(("server.started".into(), json!(true)));
+        facts.push(("initial.sees".into(), json!(label(&first_der))));
+        let port = lease.port;
+        let given = (Some(path_of("cert.pem")), Some(path_of("privkey.pem")), c.client_ca.then(|| path_of("ca.pem")));
+        let parsed = parsed.into_inner();
+        let kept = parsed.as_ref() == Some(&given);
+        stats.paths_kept_by_parser.fetch_add(u64::from(kept), Ordering::Relaxed);
+        let args_text = if kept { "the parser handed the paths back as given".to_string() } else { format!("the parser turned the paths {given:?} into {parsed:?}") };
+
+        // ---- generation `want` governs new connections: awaited (its certificate is presented and, with a client CA, its
+        // client is served), then one look by the other generation's client. `done` = the steps so far ("" = at the start).
+        let mut machinery: Option<String> = None;
+        let mut ok = true;
+        let mut cur = "A";
+        for i in 0..=c.history.len() {
+            let want = if i == 0 { &gen_a } else { gen_of(&c.history[i - 1]) };
+            let other = if want.name == "A" { &gen_b } else { &gen_a };
+            let tag = if i == 0 { "initial".to_string() } else { format!("step{i}.{}", want.name) };
+            if i > 0 {
+                // rotate to `want`, then signal
+                let rotated = if c.method == "repoint-symlink" {
+                    if by_dir { sym_repoint(&live, want.dir) } else { SYM_FILES.iter().try_for_each(|f| sym_repoint(&path_of(f), &format!("../{}/{f}", want.dir))) }
+                } else {
+                    SYM_FILES.iter().try_for_each(|f| std::fs::write(path_of(f), want.content(f)).map_err(|e| format!("rewrite {}: {e}", path_of(f))))
+                };
+                // what the configured paths name now is the new generation (whichever way it got there)
+                let in_place = SYM_FILES.iter().all(|f| std::fs::read_to_string(path_of(f)).ok().as_deref() == Some(want.content(f)));
+                if let Err(e) = rotated {
+                    machinery = Some(format!("signal-reload symlink: cannot rotate the files: {e}"));
+                    break;
+                }
+                if !in_place {
+                    machinery = Some(format!("signal-reload symlink: after the rotation the configured paths under {live} do not read generation {}", want.name));
+                    break;
+                }
+                // never raise SIGUSR1 unless a handler is in place (the default action kills the process)
+                if !sigusr1_has_handler() {
+                    machinery = Some("signal-reload symlink: no SIGUSR1 handler is installed although the server is up; not raising the signal".to_string());
+                    break;
+                }
+                if !raise_sigusr1() {
+                    machinery = Some("signal-reload symlink: raise(SIGUSR1) failed".to_string());
+                    break;
+                }
+            }
+            let done = if i == 0 { "no rotation yet".to_string() } else { format!("{} + SIGUSR1 for each of [{}]", c.method, c.history[..i].join(", ")) };
+            let ctx = format!("running server_main started from the command line (--tls-cert/--tls-key{} = absolute paths where {}; {args_text}), start generation A, {done}; the configured paths now name generation {}", if c.client_ca { "/--tls-ca" } else { "" }, if by_dir { "the parent directory `live` is a symbolic link" } else { "each file is itself a symbolic link" }, want.name);
+            let deadline = Instant::now() + SYM_APPLY_DEADLINE;
+            let l = loop {
+                let l = sym_look(port, pki, c.client_ca.then_some(want.client), c.client_ca, &label).await;
+                counters.evals.fetch_add(1, Ordering::Relaxed);
+                stats.handshakes.fetch_add(1, Ordering::Relaxed);
+                if (l.cert == want.name && (!c.client_ca || l.served == Some(true))) || Instant::now() >= deadline {
+                    break l;
+                }
+                tokio::time::sleep(Duration::from_millis(20)).await;
+            };
+            let applied = l.cert == want.name;
+            facts.push((format!("{tag}.applied"), json!(applied)));
+            if !applied {
+                ok = false;
+                let key = if i == 0 { "sigreload.symlink.initial-identity" } else { "sigreload.symlink.not-applied" };
+                sink.viol(key.into(), format!("{ctx}, but {SYM_APPLY_DEADLINE:?} later a new connection{} still gets: {} (expected the server certificate of generation {}, the one the configured path names; replaced generation: {cur}); client CA {ca_text}", if c.client_ca { " by a client of that generation's client CA" } else { "" }, l.detail, want.name), replay.clone());
+            }
+            if c.client_ca {
+                facts.push((format!("{tag}.current-ca-client-served"), json!(l.served)));
+                match l.served {
+                    Some(true) => {
+                        stats.current_ca_served.fetch_add(1, Ordering::Relaxed);
+                    }
+                    Some(false) => {
+                        ok = false;
+                        sink.viol("sigreload.symlink.new-client-ca-refused".into(), format!("{ctx}, but {SYM_APPLY_DEADLINE:?} later a client whose certificate is issued by generation {}'s client CA (the one --tls-ca names now) is still refused: {}", want.name, l.detail), replay.clone());
+                    }
+                    None if applied => {
+                        machinery = Some(format!("signal-reload symlink: nothing conclusive about a client of the client CA in force within {SYM_APPLY_DEADLINE:?}: {}; {c:?}", l.detail));
+                        break;
+                    }
+                    None => {}
+                }
+                // the other generation's client (at the start: never configured; later: replaced)
+                let o = sym_look(port, pki, Some(other.client), true, &label).await;
+                counters.evals.fetch_add(1, Ordering::Relaxed);
+                stats.handshakes.fetch_add(1, Ordering::Relaxed);
+                facts.push((format!("{tag}.other-ca-client-served"), json!(o.served)));
+                match o.served {
+                    Some(true) => {
+                        ok = false;
+                        sink.viol("sigreload.symlink.old-client-ca-still-accepted".into(), format!("{ctx}, yet a client whose certificate is issued by generation {}'s client CA ({}) is served: {}", other.name, if i == 0 { "never configured" } else { "replaced: --tls-ca no longer names it" }, o.detail), replay.clone());
+                    }
+                    Some(false) => {
+                        stats.other_ca_refused.fetch_add(1, Ordering::Relaxed);
+                    }
+                    None => {}
+                }
+            }
+            if !ok {
+                break;
+            }
+            if i > 0 {
+                stats.steps_applied.fetch_add(1, Ordering::Relaxed);
+                stats.steps_applied_by_repoint.fetch_add(u64::from(c.method == "repoint-symlink"), Ordering::Relaxed);
+            }
+            cur = want.name;
+        }
+
+        // ---- the connection made before the first rotation is still served
+        let alive = tokio::time::timeout(Duration::from_secs(30), async {
+            let mut b = [0u8; 5];
+            first.write_all(b"GET / HTTP/1.1\r\nHost: x\r\n\r\n").await.is_ok() && first.flush().await.is_ok() && first.read_exact(&mut b).await.is_ok() && &b == b"HTTP/"
+        })
+        .await
+        .unwrap_or(false);
+        counters.evals.fetch_add(1, Ordering::Relaxed);
+        facts.push(("established.alive".into(), json!(alive)));
+        if !alive && machinery.is_none() {
+            sink.viol("sigreload.symlink.established-connection-disturbed".into(), format!("the connection established before the first SIGUSR1 no longer gets an HTTP response after {} + SIGUSR1 for each of {:?} ({}); client CA {ca_text}", c.method, c.history, c.link), replay.clone());
+        }
+        if task.is_finished() {
+            if let Err(je) = task.await {
+                if je.is_panic() {
+                    sink.viol("sigreload.symlink.panic".into(), format!("server_main panicked during {c:?}: {}", panic_text(&*je.into_panic())), replay);
+                }
+            }
+        } else {
+            task.abort();
+        }
+        drop(lease);
+        SigResult { facts, machinery }
+    })
+    .await
+}
+
+/// Runs one symlink history in a runtime of its own; dropping it removes the server's tasks (listener, SIGUSR1 task).
+fn exec_sym_case(pki: &Pki, c: &SymCase, sink: &Sink<'_>, counters: &Counters, stats: &SymStats) -> Result<SigResult, String> {
+    install_sigusr1_guard()?;
+    let rt = runtime();
+    let r = rt.block_on(run_sym_case(pki, c, sink, counters, stats));
+    drop(rt);
+    match r {
+        Ok(res) => Ok(res),
+        Err(p) => {
+            sink.viol("sigreload.symlink.panic".into(), format!("panic in signal-reload symlink history {c:?}: {p}"), c.to_json());
             Ok(SigResult { facts: vec![("panicked".into(), json!(p))], machinery: None })
         }
     }
@@ -3248,6 +3655,7 @@ fn replay(args: &Args, v: &Value, mut rep: Report, os_store: &OsStore) -> Report
     let mut machinery: Option<String> = None;
     let ret_stats = RetStats::default();
     let os_stats = OsStats::default();
+    let sym_stats = SymStats::default();
     for _ in 0..2 {
         let o = match v["kind"].as_str() {
             Some("os-trust-store") => {
@@ -3260,6 +3668,19 @@ fn replay(args: &Args, v: &Value, mut rep: Report, os_store: &OsStore) -> Report
             Some("signal-reload") => {
                 let c = SigCase::from_json(v);
                 match exec_sig_case(&pki, &c, &sink, &counters) {
+                    Ok(res) => {
+                        machinery = machinery.or(res.machinery);
+                        json!({"verdict": res.facts})
+                    }
+                    Err(m) => {
+                        machinery = Some(m);
+                        json!({"verdict": {"not_run": true}})
+                    }
+                }
+            }
+            Some("signal-reload-symlink") => {
+                let c = SymCase::from_json(v);
+                match exec_sym_case(&pki, &c, &sink, &counters, &sym_stats) {
                     Ok(res) => {
                         machinery = machinery.or(res.machinery);
                         json!({"verdict": res.facts})
@@ -3414,6 +3835,10 @@ pub fn run(args: &Args) -> Report {
     let ostrust = os_trust_domain(&algs);
     let os_stats = OsStats::default();
     let sigs = sig_domain(&algs, thorough);
+    // the symlink sub-pass of signal-reload: same domain in both tiers
+    let syms = sym_domain(&algs);
+    let sym_stats = SymStats::default();
+    let sym_wall: Mutex<f64> = Mutex::new(0.0);
     let rets = ret_domain(&algs, thorough);
     // the SIGUSR1 ones run one after the other inside the signal-reload job, the others are jobs of their own
     let ret_lib: Vec<usize> = (0..rets.len()).filter(|k| rets[*k].mechanism != RET_SIG).collect();
@@ -3425,7 +3850,7 @@ pub fn run(args: &Args) -> Report {
     let sig_machinery: Mutex<Option<String>> = Mutex::new(None);
     let sig_wall: Mutex<f64> = Mutex::new(0.0);
     let ret_sig_wall: Mutex<f64> = Mutex::new(0.0);
-    let distinct = rets.iter().collect::<HashSet<_>>().len() + sigs.iter().collect::<HashSet<_>>().len() + badcas.len() + ostrust.iter().collect::<HashSet<_>>().len() + matrix.iter().collect::<HashSet<_>>().len() + probes.iter().collect::<HashSet<_>>().len() + reloads.iter().collect::<HashSet<_>>().len() + names.iter().collect::<HashSet<_>>().len() + prov_default.iter().collect::<HashSet<_>>().len() + prov_chromium_cases;
+    let distinct = rets.iter().collect::<HashSet<_>>().len() + sigs.iter().collect::<HashSet<_>>().len() + syms.iter().collect::<HashSet<_>>().len() + badcas.len() + ostrust.iter().collect::<HashSet<_>>().len() + matrix.iter().collect::<HashSet<_>>().len() + probes.iter().collect::<HashSet<_>>().len() + reloads.iter().collect::<HashSet<_>>().len() + names.iter().collect::<HashSet<_>>().len() + prov_default.iter().collect::<HashSet<_>>().len() + prov_chromium_cases;
     let n_name_ok = AtomicU64::new(0);
     let n_name_refused = AtomicU64::new(0);
     let n_badca_refused_start = AtomicU64::new(0);
@@ -3592,6 +4017,29 @@ pub fn run(args: &Args) -> Report {
                                 }
                             }
                             *sig_wall.lock().unwrap() = t.elapsed().as_secs_f64();
+                            // the symlink sub-pass: command-line parser + symlinked paths (same constraint: one at a time)
+                            let t = std::time::Instant::now();
+                            if sig_machinery.lock().unwrap().is_none() {
+                                for c in &syms {
+                                    match exec_sym_case(pki_of(&c.alg), c, &sink, &counters, &sym_stats) {
+                                        Ok(res) => {
+                                            sym_stats.cases.fetch_add(1, Ordering::Relaxed);
+                                            if c.link == "parent-dir-is-symlink" && c.client_ca && c.method == "repoint-symlink" && c.history.len() == 2 {
+                                                samples.lock().unwrap().push(json!({"case": c.to_json(), "observed": res.facts}));
+                                            }
+                                            if let Some(m) = res.machinery {
+                                                *sig_machinery.lock().unwrap() = Some(m);
+                                                break;
+                                            }
+                                        }
+                                        Err(m) => {
+                                            *sig_machinery.lock().unwrap() = Some(m);
+                                            break;
+                                        }
+                                    }
+                                }
+                            }
+                            *sym_wall.lock().unwrap() = t.elapsed().as_secs_f64();
                             // the returning-client histories that raise SIGUSR1 (same constraint: one at a time)
                             let t = std::time::Instant::now();
                             if sig_machinery.lock().unwrap().is_none() {
@@ -3696,6 +4144,9 @@ pub fn run(args: &Args) -> Report {
     rep.bounds.insert("signal_reload_history_length".into(), json!(if thorough { "1..=4 (all); 1..=2 with client CA and per further key algorithm" } else { "1..=2 (all); 3 (first step bad-key/bad-cert and last step good-A/good-B, plus [good-B, bad-key, good-A])" }));
     rep.bounds.insert("signal_reload_deadlines_ms".into(), json!({"new_identity_visible": SIG_APPLY_DEADLINE.as_millis() as u64, "settle_before_unchanged_look": SIG_SETTLE.as_millis() as u64, "server_start": SIG_START_DEADLINE.as_millis() as u64}));
     let ld = |a: &AtomicU64| a.load(Ordering::Relaxed);
+    rep.bounds.insert("signal_reload_symlink_histories".into(), json!(syms.len()));
+    rep.bounds.insert("signal_reload_symlink_dimensions".into(), json!({"link": SYM_LINKS, "client_ca": [false, true], "rotation": SYM_METHODS, "history (start: generation A)": SYM_HISTORIES, "arguments": "PenguinCli::try_parse_from(penguin server --host 127.0.0.1 --port <p> --404-resp 404 --timeout 900 --tls-cert <abs> --tls-key <abs> [--tls-ca <abs>])", "new_generation_visible_deadline_ms": SYM_APPLY_DEADLINE.as_millis() as u64}));
+    rep.extra.insert("signal_reload_symlink".into(), json!({"histories_run": ld(&sym_stats.cases), "rotations_applied": ld(&sym_stats.steps_applied), "rotations_applied_by_repointing_a_symlink": ld(&sym_stats.steps_applied_by_repoint), "handshakes": ld(&sym_stats.handshakes), "clients_of_the_client_ca_in_force_served": ld(&sym_stats.current_ca_served), "clients_of_the_other_client_ca_refused": ld(&sym_stats.other_ca_refused), "histories_where_the_parser_kept_the_paths_as_given": ld(&sym_stats.paths_kept_by_parser), "wall_s": *sym_wall.lock().unwrap()}));
     rep.bounds.insert("returning_client_histories".into(), json!(rets.len()));
     rep.bounds.insert("returning_client_histories_sigusr1".into(), json!(ret_sig.len()));
     rep.bounds.insert("returning_client_clients".into(), json!(RET_CLIENTS));
@@ -3752,6 +4203,7 @@ pub fn run(args: &Args) -> Report {
     }
     rep.assumptions.push("the system trust store of the process is what SSL_CERT_FILE names (rustls-native-certs reads the variable on every load and then ignores the machine's own store): a bundle holding only os-ca, which issued nothing but the certificates of the os-trust-store pass; roots = \"system\" means no --tls-ca. That the variable really feeds the subject's built-in roots is checked by the control cases (os_trust_store_control_ok must equal os_trust_store_controls, else MACHINERY). A subject built with other built-in roots as well (webpki-roots, dn42-roots features) would still pass the control; those roots issued none of the certificates used here".into());
     rep.assumptions.push("transport is an in-memory duplex pipe (loopback TCP in the client-name and signal-reload passes); TCP-level effects (resets, partial writes) are out of scope of this property".into());
+    rep.assumptions.push("signal-reload symlink sub-pass: the server's arguments are what the subject's clap parser makes of an absolute-path command line; a rotation is complete (every link re-pointed by rename, or every file rewritten) before SIGUSR1 is raised; the new generation is given 20 s to govern new connections; a client counts as refused only when its handshake fails or its connection is closed instead of an HTTP response, as served only when an HTTP response arrives".into());
     rep.assumptions.push("signal-reload pass: SIGUSR1 is raised by the process on itself (raise) only after the server accepted a TLS connection, i.e. after its handler task exists; the reload is given 3 s to become visible".into());
     rep.assumptions.push("returning-client pass: the client is rustls with its in-memory session store (tickets and session ids), one ClientConfig per history; whether a handshake was resumed is what rustls reports (handshake_kind) on either side; a resumption across a reload is not an alarm by itself (reloading the same identity may resume), only its effects are judged".into());
     rep.assumptions.push("the subject client is TLS 1.3 only (ECH grease); TLS 1.2 client authentication is exercised by the harness-owned probing client".into());
@@ -3806,6 +4258,10 @@ pub fn run(args: &Args) -> Report {
         rep.machinery_error = Some(m);
     } else if n_sig_done.load(Ordering::Relaxed) != sigs.len() as u64 {
         rep.machinery_error = Some(format!("signal-reload: {} of {} histories were executed", n_sig_done.load(Ordering::Relaxed), sigs.len()));
+    } else if ld(&sym_stats.cases) != syms.len() as u64 {
+        rep.machinery_error = Some(format!("signal-reload symlink: {} of {} histories were executed", ld(&sym_stats.cases), syms.len()));
+    } else if rep.violations.is_empty() && (ld(&sym_stats.steps_applied) != syms.iter().map(|c| c.history.len() as u64).sum::<u64>() || ld(&sym_stats.other_ca_refused) == 0 || ld(&sym_stats.current_ca_served) == 0) {
+        rep.machinery_error = Some(format!("signal-reload symlink: no violation although not every rotation was seen to take effect, or no client was ever served / refused under a client CA: {:?}", rep.extra.get("signal_reload_symlink")));
     }
     rep
 }
